@@ -18,6 +18,7 @@ V = {
     "timestamp": ["timestamp '1970-01-01 00:00:00'", "timestamp '2024-02-29 23:59:59'", "timestamp '1969-12-31 23:59:59'", "timestamp '2024-02-29 00:00:00'"],
     "interval": ["interval '1' day", "interval '2' day", "interval '1' month", "interval '30' day", "interval '-1' day", "interval '1' year", "interval '12' month", "interval '31' day",
                  "cast('1 hour' as interval)", "cast('3600 seconds' as interval)", "cast('1 day 1 second' as interval)", "cast('24 hours' as interval)"],
+    "vector(3)": ["'[1,2,3]'", "'[0,0,0]'", "'[1,2,4]'", "'[-1,2,3]'", "'[1,2,3.0]'", "'[0.5,-0.0,1e3]'", "'[-0,0,0]'"],
     "blob": ["'\\x00'", "'\\xff'", "'\\x0000'", "'\\x61'", "'\\x6100'", "'a''b'", "'c\\d'", "'\\x5c27'"],
 }
 PK_OK = {"int", "bigint", "smallint", "varchar", "date"}
